@@ -1042,6 +1042,439 @@ def run_histories(ck, drv, cases):
     ck.extra["geff_object_history_outcomes"] = oh
 
 
+# ----------------------------------------------------------------- histories of validator CALLS on the same ARRAY OBJECTS
+# The property speaks of the graph and labelling GIVEN to the validator: every call has to decide the definition on the contents its
+# argument arrays have AT THE TIME OF THE CALL, whatever was validated before in the same process and on whichever array objects.
+# A history holds 1-2 "slots" of numpy arrays (node ids, edge ids, tracklet ids, lineage ids; slot 1 may hold the SAME node-id array
+# object as slot 0 with another edge array = one node array re-used for a different graph) plus ONE in-memory geff per slot built
+# from these very objects, and interleaves
+#   calls: validate_tracklets(nodes, edges, labels) | validate_lineages(nodes, edges, lin) | validate_data(geff, cfg)   (all three
+#          entry points share whatever process state tracks.py keeps), with
+#   in-place edits: one edge row, one node id (plain, or renamed consistently in the edge arrays), one tracklet / lineage id,
+#          the whole edge array overwritten by another edge set of the same shape (np.copyto), the whole tracklet-id array
+#          overwritten by the true partition of the current graph.
+# A python-list mirror (`ah_states`) carries the CURRENT contents; every call is judged on them by the independent oracles, compared
+# verbatim with the proved Lean model (ops arrays / data, and the whole trace with `runHist`, op hist) and with the same call on
+# fresh copies.
+AH_DECLARES = ["tracklet,lineage", "lineage,tracklet", "tracklet-only", "tracklet,lineage", "lineage,tracklet", "lineage-only", "none"]
+AH_CALLS = ("trk", "lin", "vd")
+_AH_MD = {}
+
+
+def _ah_meta(declares):
+    import geff_spec
+
+    if declares not in _AH_MD:
+        tnp = H_DECLARES[declares]
+        names = _ah_names(declares)
+        _AH_MD[declares] = (names, geff_spec.GeffMetadata(
+            geff_version="1.0.0", directed=True,
+            node_props_metadata={k: geff_spec.PropMetadata(identifier=k, dtype="int64") for k in names},
+            edge_props_metadata={}, track_node_props=None if tnp is None else {k: v for k, v in tnp}))
+    return _AH_MD[declares]
+
+
+def ah_initial(ah):
+    """python-list mirror of the array objects of the history; a slot with nodes None shares slot 0's node LIST (as the
+    implementation side shares the array object)"""
+    slots = []
+    for s in ah["slots"]:
+        slots.append({"nodes": slots[0]["nodes"] if s["nodes"] is None else list(s["nodes"]), "edges": [list(e) for e in s["edges"]],
+                      "labels": list(s["labels"]), "lin": list(s["lin"]), "trk_missing": s.get("trk_missing"),
+                      "declares": s["declares"]})
+    return slots
+
+
+def ah_edit(slots, st):
+    """apply one in-place edit to the mirror"""
+    s = slots[st["slot"]]
+    op = st["op"]
+    if op == "set_edge":
+        s["edges"][st["i"]] = list(st["e"])
+    elif op == "set_node":
+        old = s["nodes"][st["i"]]
+        s["nodes"][st["i"]] = st["x"]
+        if st.get("rename"):       # the caller renames the node consistently in every edge array that goes with this node array
+            for t in slots:
+                if t["nodes"] is s["nodes"]:
+                    t["edges"][:] = [[st["x"] if a == old else a, st["x"] if b == old else b] for a, b in t["edges"]]
+    elif op == "set_label":
+        s["labels"][st["i"]] = st["x"]
+    elif op == "set_lin":
+        s["lin"][st["i"]] = st["x"]
+    elif op == "load_edges":
+        s["edges"][:] = [list(e) for e in st["edges"]]
+    elif op == "load_labels":
+        s["labels"][:] = list(st["labels"])
+    else:
+        raise ValueError(op)
+
+
+def ah_states(ah):
+    """per step: None for an edit, for a call the contents (deep copy) of the slot it is made on"""
+    slots = ah_initial(ah)
+    out = []
+    for st in ah["steps"]:
+        if st["op"] in AH_CALLS:
+            s = slots[st["slot"]]
+            out.append({"nodes": list(s["nodes"]), "edges": [list(e) for e in s["edges"]], "labels": list(s["labels"]), "lin": list(s["lin"]),
+                        "trk_missing": s["trk_missing"], "declares": s["declares"]})
+        else:
+            ah_edit(slots, st)
+            out.append(None)
+    return out
+
+
+def _ah_geff(cur, arrays=None, layout="plain"):
+    """in-memory geff of the contents `cur`; with `arrays` it is built FROM THESE OBJECTS (nothing is copied)"""
+    names, md = _ah_meta(cur["declares"])
+    if arrays is None:
+        arrays = {"nodes": np.asarray(cur["nodes"], dtype=np.int64), "edges": np.asarray(cur["edges"], dtype=np.int64).reshape(-1, 2),
+                  "labels": np.asarray(cur["labels"], dtype=np.int64), "lin": np.asarray(cur["lin"], dtype=np.int64)}
+    miss = cur["trk_missing"]
+    props = {k: {"values": arrays["labels"] if k == "trk" else arrays["lin"],
+                 "missing": (None if miss is None else np.asarray(miss, dtype=bool)) if k == "trk" else None} for k in names}
+    return {"metadata": md, "node_ids": arrays["nodes"], "edge_ids": arrays["edges"], "node_props": props, "edge_props": {}}
+
+
+def _ah_call(st, arrays, g, cfgs):
+    from geff.validate.data import ValidationConfig
+    from geff.validate.tracks import validate_lineages, validate_tracklets
+
+    if st["op"] == "vd":
+        key = tuple(st["cfg"])
+        cfg = cfgs.setdefault(key, ValidationConfig(tracklet=bool(key[0]), lineage=bool(key[1]))) if cfgs is not None else \
+            ValidationConfig(tracklet=bool(key[0]), lineage=bool(key[1]))
+        return vd_outcome(g, cfg)
+    try:
+        if st["op"] == "trk":
+            valid, errors = validate_tracklets(arrays["nodes"], arrays["edges"], arrays["labels"])
+            return {"valid": bool(valid), "messages": [str(m) for m in errors], "bad": [e["t"] for e in parse_errors(errors)]}
+        valid, errors = validate_lineages(arrays["nodes"], arrays["edges"], arrays["lin"])
+        return {"valid": bool(valid), "messages": [str(m) for m in errors]}
+    except Exception as ex:  # noqa: BLE001
+        return {"exc": type(ex).__name__ + ": " + str(ex)[:80]}
+
+
+def impl_array_history(ah):
+    """run the history on ONE set of array objects per slot (edits in place, every call on the same objects); per call: the
+    observation, the same call on fresh copies of the current contents, whether the call changed an array"""
+    lay = ah.get("layout", "plain")
+    slots = []
+    for s in ah["slots"]:
+        arrays = {"nodes": slots[0][0]["nodes"] if s["nodes"] is None else _lay(np.asarray(s["nodes"], dtype=np.int64), lay),
+                  "edges": _lay(np.asarray(s["edges"], dtype=np.int64).reshape(-1, 2), lay),
+                  "labels": _lay(np.asarray(s["labels"], dtype=np.int64), lay), "lin": _lay(np.asarray(s["lin"], dtype=np.int64), lay)}
+        cur0 = {"declares": s["declares"], "trk_missing": s.get("trk_missing")}
+        slots.append((arrays, _ah_geff(cur0, arrays)))
+    cfgs = {}
+    out = []
+
+    def contents(arrays):
+        return {k: arrays[k].tolist() for k in ("nodes", "edges", "labels", "lin")}
+    for st, cur in zip(ah["steps"], ah_states(ah)):
+        arrays, g = slots[st["slot"]]
+        if cur is None:                                  # in-place edit of the array objects
+            op = st["op"]
+            if op == "set_edge":
+                arrays["edges"][st["i"]] = st["e"]
+            elif op == "set_node":
+                old = int(arrays["nodes"][st["i"]])
+                arrays["nodes"][st["i"]] = st["x"]
+                if st.get("rename"):
+                    for a2, _g2 in slots:
+                        if a2["nodes"] is arrays["nodes"]:
+                            a2["edges"][a2["edges"] == old] = st["x"]
+            elif op == "set_label":
+                arrays["labels"][st["i"]] = st["x"]
+            elif op == "set_lin":
+                arrays["lin"][st["i"]] = st["x"]
+            elif op == "load_edges":
+                np.copyto(arrays["edges"], np.asarray(st["edges"], dtype=np.int64).reshape(-1, 2))
+            elif op == "load_labels":
+                np.copyto(arrays["labels"], np.asarray(st["labels"], dtype=np.int64))
+            out.append(None)
+            continue
+        want = {k: cur[k] for k in ("nodes", "edges", "labels", "lin")}
+        if contents(arrays) != want:
+            raise RuntimeError(f"harness: mirror and arrays differ before a call: {contents(arrays)} vs {want}")
+        shared = _ah_call(st, arrays, g, cfgs)
+        out.append({"shared": shared, "modified": contents(arrays) != want})
+    # only AFTER the whole history (no validator call of the harness's own may come between two calls of the history: it would
+    # replace whatever the process remembers of the previous call): the same calls on fresh copies of the contents of that moment
+    for st, cur, o in zip(ah["steps"], ah_states(ah), out):
+        if cur is not None:
+            fresh_arrays = {"nodes": np.asarray(cur["nodes"], dtype=np.int64), "edges": np.asarray(cur["edges"], dtype=np.int64).reshape(-1, 2),
+                            "labels": np.asarray(cur["labels"], dtype=np.int64), "lin": np.asarray(cur["lin"], dtype=np.int64)}
+            o["fresh"] = _ah_call(st, fresh_arrays, _ah_geff(cur, fresh_arrays), None)
+    return out
+
+
+def ah_reqs(ah):
+    """(per-call requests of the ops arrays / data on the CURRENT contents, the single `hist` request of the whole history)"""
+    per = []
+    for st, cur in zip(ah["steps"], ah_states(ah)):
+        if cur is None:
+            continue
+        c = {"nodes": cur["nodes"], "labels": cur["labels"], "edges": cur["edges"]}
+        if st["op"] == "trk":
+            per.append(arrays_req(c))
+        elif st["op"] == "lin":
+            per.append({"op": "data", "cfg": {"tracklet": False, "lineage": True}, "tnp": [["lineage", "lin"]],
+                        "props": [["lin", {"values": [str(x) for x in cur["lin"]], "missing": None}]],
+                        "nodes": [str(x) for x in cur["nodes"]], "edges": [[str(a), str(b)] for a, b in cur["edges"]]})
+        else:
+            props = [[k, {"values": [str(x) for x in (cur["labels"] if k == "trk" else cur["lin"])],
+                          "missing": cur["trk_missing"] if k == "trk" else None}] for k in _ah_names(cur["declares"])]
+            per.append({"op": "data", "cfg": {"tracklet": bool(st["cfg"][0]), "lineage": bool(st["cfg"][1])}, "tnp": H_DECLARES[cur["declares"]],
+                        "props": props, "nodes": [str(x) for x in cur["nodes"]], "edges": [[str(a), str(b)] for a, b in cur["edges"]]})
+    return per
+
+
+def _ah_names(declares):
+    """insertion order of the id properties in node_props"""
+    return ["trk", "lin"] if declares != "lineage,tracklet" else ["lin", "trk"]
+
+
+def ah_same_model(st, m, r):
+    """model answer for one call step == implementation observation (verbatim)"""
+    if "err" in m:
+        return False
+    if st["op"] == "trk":
+        return "exc" not in r and m.get("valid") == r["valid"] and m.get("messages") == r["messages"]
+    if st["op"] == "lin":
+        if "exc" in r:
+            return False
+        if r["valid"]:
+            return m.get("outcome") == "ok" and not r["messages"]
+        return m.get("outcome") == "ValueError" and m.get("args") == ["Found invalid lineages:\n", "\n".join(r["messages"])]
+    return same_vd(m, r)
+
+
+def ah_step_verdict(st, cur, r):
+    """model-free judgement of ONE call of a history on the contents `cur` the arrays had when it was made:
+    list of (key, message).  Lineage calls are C14's subject: they are observed (and compared with the model), not judged here."""
+    bad = []
+    where = {"trk": "validate_tracklets(nodes, edges, tracklet_ids)", "lin": "validate_lineages(nodes, edges, lineage_ids)",
+             "vd": f"validate_data(geff, tracklet/lineage={st.get('cfg')})"}[st["op"]]
+    now = f"nodes {cur['nodes']} edges {cur['edges']} tracklet ids {cur['labels']}"
+    if st["op"] == "lin":
+        return bad
+    if r["modified"]:
+        bad.append(("C13:validator-modifies-input", f"{where} modified one of its argument arrays"))
+    if st["op"] == "trk":
+        c = {"nodes": cur["nodes"], "labels": cur["labels"], "edges": cur["edges"], "missing": None}
+        if in_domain(c):
+            s_valid, s_bad = spec_oracle(c["nodes"], c["labels"], c["edges"])
+            o = r["shared"]
+            if "exc" in o:
+                bad.append(("C13:exception", f"{where} raised {o['exc']} on an acyclic graph ({now})"))
+            elif o["valid"] != s_valid:
+                bad.append(("C13:stale-accepts-invalid" if o["valid"] else "C13:stale-rejects-valid",
+                            f"{where} returned {o['valid']} {o['messages']}; on the CURRENT contents of its arguments ({now}) the documented "
+                            f"definition says valid={s_valid}, offending {s_bad}"))
+            elif o["bad"] != s_bad:
+                bad.append(("C13:stale-wrong-offenders", f"{where} names tracklets {o['bad']}; on the current contents ({now}) the offending "
+                            f"ones are {s_bad}"))
+    else:
+        c = {"nodes": cur["nodes"], "labels": cur["labels"], "edges": cur["edges"], "missing": cur["trk_missing"]}
+        if in_domain(c):
+            h = {"case": {"nodes": cur["nodes"], "edges": cur["edges"]}, "declares": cur["declares"], "trk_missing": cur["trk_missing"],
+                 "lin_missing": None, "lin": cur["lin"], "absent": []}
+            want = history_expected(h, st, cur["labels"])
+            o = r["shared"]
+            got = o["outcome"] if o["outcome"] != "ValueError" else (o.get("args") or [""])[0].split("\n")[0] + "\n"
+            if want is not None and want != got:
+                bad.append(("C13:stale-validate_data-verdict", f"{where} (declares {cur['declares']}) ended in {got!r} {o.get('args')}; the checks in "
+                            f"documented order on the CURRENT contents of the geff's arrays ({now}, lineage ids {cur['lin']}, missing "
+                            f"{cur['trk_missing']}) give {want!r}"))
+    if r["shared"] != r["fresh"]:       # model-free and domain-free: the verdict is a function of the contents
+        bad.append(("C13:verdict-depends-on-earlier-calls", f"{where} on array objects that were validated before and edited in place since "
+                    f"gives {r['shared']}; the same call on fresh copies of the same contents ({now}) gives {r['fresh']}"))
+    return bad
+
+
+def judge_array_history(ck, ah, outs, per_model):
+    """-> list of (key, message) (model-free); model disagreements go to ck.corr_broken"""
+    bad = []
+    k = 0
+    for i, (st, cur, r) in enumerate(zip(ah["steps"], ah_states(ah), outs)):
+        if cur is None:
+            continue
+        bad += [(key, f"step {i}: {what}") for key, what in ah_step_verdict(st, cur, r)]
+        if per_model is not None:
+            m = per_model[k]
+            if "err" in m:
+                ck.corr_broken("C13:driver", {"array_history": ah, "step": i}, r["shared"], m)
+            elif not ah_same_model(st, m, r["shared"]):
+                ck.corr_broken({"trk": "C13:validateTrackletsArrays", "lin": "C13:lineage-call-in-history", "vd": "C13:validateDataTracks"}[st["op"]]
+                               + "(current contents of re-used arrays)", {"array_history": ah, "step": i}, r["shared"], m)
+            elif st["op"] == "lin" and r["shared"] != r["fresh"]:
+                ck.corr_broken("C13:lineage-call-in-history", {"array_history": ah, "step": i}, r["shared"], r["fresh"])
+        k += 1
+    return bad
+
+
+def _ah_rank(nodes, edges):
+    """rank of every node POSITION in a topological order of the DAG (new edges go from lower to higher rank: still acyclic)"""
+    import networkx as nx
+
+    g = nx.DiGraph()
+    g.add_nodes_from(nodes)
+    g.add_edges_from((u, v) for u, v in edges)
+    order = list(nx.topological_sort(g))
+    return [order.index(x) for x in nodes]
+
+
+def _ah_rand_edges(rng, nodes, rank, m):
+    out = []
+    for _ in range(m):
+        a, b = rng.sample(range(len(nodes)), 2)
+        if rank[a] > rank[b]:
+            a, b = b, a
+        out.append([nodes[a], nodes[b]])
+    return out
+
+
+def gen_array_history(rng, pool, j):
+    c = rng.choice(pool)
+    while len(c["nodes"]) < 2:
+        c = rng.choice(pool)
+    good, badl = lineage_labellings(c, f"ah:{j}")
+    n = len(c["nodes"])
+    mk_missing = lambda k: [rng.random() < 0.25 for _ in range(k)] if rng.random() < 0.15 else None  # noqa: E731
+    slots = [{"nodes": list(c["nodes"]), "edges": [list(e) for e in c["edges"]], "labels": list(c["labels"]),
+              "lin": badl if (badl is not None and rng.random() < 0.3) else good, "trk_missing": mk_missing(n), "declares": rng.choice(AH_DECLARES)}]
+    ranks = [_ah_rank(c["nodes"], c["edges"])]
+    if rng.random() < 0.4:
+        if rng.random() < 0.7:      # the SAME node-id array with another edge array: one node array re-used for a different graph
+            e2 = _ah_rand_edges(rng, c["nodes"], ranks[0], rng.randint(1, max(1, n)))
+            lab2 = true_labelling(c["nodes"], e2, rng)
+            if rng.random() < 0.4:
+                lab2[rng.randrange(n)] = rng.choice(lab2)
+            g2, _b2 = lineage_labellings({"nodes": c["nodes"], "edges": e2}, f"ah2:{j}")
+            slots.append({"nodes": None, "edges": e2, "labels": lab2, "lin": g2, "trk_missing": None, "declares": rng.choice(AH_DECLARES)})
+            ranks.append(ranks[0])
+        else:
+            c2 = rng.choice(pool)
+            while len(c2["nodes"]) < 2:
+                c2 = rng.choice(pool)
+            g2, _b2 = lineage_labellings(c2, f"ah3:{j}")
+            slots.append({"nodes": list(c2["nodes"]), "edges": [list(e) for e in c2["edges"]], "labels": list(c2["labels"]), "lin": g2,
+                          "trk_missing": None, "declares": rng.choice(AH_DECLARES)})
+            ranks.append(_ah_rank(c2["nodes"], c2["edges"]))
+    ah = {"slots": slots, "steps": [], "layout": rng.choice(["plain", "plain", "plain", "noncontiguous", "fortran", "bigendian", "rowstrided"])}
+    mirror = ah_initial(ah)
+
+    def call(s):
+        op = rng.choice(["trk", "trk", "trk", "lin", "vd", "vd", "vd"])
+        st = {"op": op, "slot": s}
+        if op == "vd":
+            st["cfg"] = rng.choice([[1, 0], [1, 1], [1, 0], [0, 1]])
+        return st
+
+    def edit(s):
+        cur, rank = mirror[s], ranks[s]
+        k, m = len(cur["nodes"]), len(cur["edges"])
+        r = rng.random()
+        if r < 0.40 and m:
+            if rng.random() < 0.1:      # anything goes: may close a cycle / make a self loop (then only model == implementation is compared)
+                e = [rng.choice(cur["nodes"]), rng.choice(cur["nodes"])]
+            else:
+                e = _ah_rand_edges(rng, cur["nodes"], rank, 1)[0]
+            return {"op": "set_edge", "slot": s, "i": rng.randrange(m), "e": e}
+        if r < 0.50:
+            x = max(cur["nodes"]) + rng.randint(1, 5)
+            return {"op": "set_node", "slot": s, "i": rng.randrange(k), "x": x, "rename": rng.random() < 0.8}
+        if r < 0.62:
+            return {"op": "set_label", "slot": s, "i": rng.randrange(k), "x": rng.choice(cur["labels"] + [777])}
+        if r < 0.67:
+            return {"op": "set_lin", "slot": s, "i": rng.randrange(k), "x": rng.choice(cur["lin"] + [888])}
+        if r < 0.84 and m:
+            return {"op": "load_edges", "slot": s, "edges": _ah_rand_edges(rng, cur["nodes"], rank, m)}
+        return {"op": "load_labels", "slot": s, "labels": true_labelling(cur["nodes"], cur["edges"], rng)}
+    s = 0
+    ah["steps"].append(call(s))
+    for _ in range(rng.randint(2, 5)):
+        if len(slots) > 1 and rng.random() < 0.4:
+            s = 1 - s
+        if rng.random() < 0.75:
+            for _e in range(rng.choice([1, 1, 2])):
+                st = edit(s)
+                ah_edit(mirror, st)
+                ah["steps"].append(st)
+        ah["steps"].append(call(s))
+    return ah
+
+
+def exhaustive_array_histories(nmax):
+    """every DAG on 2..nmax nodes with an edge x every replacement of ONE edge row by another ordered pair (those that close a cycle
+    included) x {true partition of the graph before, of the graph after, one id for all} x call patterns
+    (call, edit, call) over the three entry points"""
+    import random
+
+    pats = [("trk", "trk"), ("lin", "trk"), ("vd10", "vd10"), ("trk", "vd11"), ("vd01", "trk")]
+    for n in range(2, nmax + 1):
+        nodes = list(range(n))
+        pairs = [[a, b] for a in range(n) for b in range(n) if a != b]
+        for edges in digraphs(n):
+            if not edges or not is_dag(edges):
+                continue
+            for i in range(len(edges)):
+                for e in pairs:
+                    if e == edges[i]:
+                        continue
+                    after = [list(x) for x in edges]
+                    after[i] = e
+                    rng = random.Random(0)
+                    labs = [true_labelling(nodes, edges, rng), true_labelling(nodes, after, rng), [7] * n]
+                    for li, lab in enumerate(labs):
+                        a, b = pats[(i + li + len(edges) + pairs.index(e)) % len(pats)]
+                        mk = lambda p: {"op": "vd", "slot": 0, "cfg": [int(p[2]), int(p[3])]} if p.startswith("vd") else {"op": p, "slot": 0}  # noqa: E731
+                        yield {"slots": [{"nodes": nodes, "edges": edges, "labels": lab, "lin": [100] * n, "trk_missing": None,
+                                          "declares": "tracklet,lineage"}],
+                               "steps": [mk(a), {"op": "set_edge", "slot": 0, "i": i, "e": e}, mk(b)], "layout": "plain"}
+
+
+def run_array_histories(ck, drv, cases, corpus_hist):
+    pool = [c for c in cases if c.get("missing") is None and c.get("dtype") is None and c["nodes"] and in_domain(c)
+            and all(abs(x) < 2 ** 40 for x in c["nodes"])]
+    hs = list(corpus_hist) + list(exhaustive_array_histories(3 if ck.quick else 4))
+    n_fixed = len(hs)
+    hs += [gen_array_history(ck.rng, pool, j) for j in range(1500 if ck.quick else 12000)]
+    per = [ah_reqs(ah) for ah in hs]
+    mflat = drv.ask([r for p in per for r in p])
+    if mflat is None:
+        ck.broken.append({"what": "driver Drivers/C13.lean (array-history stream)", "detail": drv.broken})
+    pos = 0
+    stats = {"calls": 0, "calls_after_an_in_place_edit_of_ids": 0, "verdict_differs_from_previous_call_on_same_arrays": 0}
+    for ah, outs, p in zip(hs, common.pmap(impl_array_history, hs, chunksize=32), per):
+        mo = None if mflat is None else mflat[pos:pos + len(p)]
+        pos += len(p)
+        calls = [st["op"] for st in ah["steps"] if st["op"] in AH_CALLS]
+        edits = sorted({st["op"] for st in ah["steps"] if st["op"] not in AH_CALLS})
+        ck.case({"array_history": ah}, f"arrays-history:{'+'.join(sorted(set(calls)))}:slots={len(ah['slots'])}:" + ("edits-ids" if
+                {"set_edge", "set_node", "load_edges"} & set(edits) else "edits-labels-only"))
+        last = {}
+        dirty = set()
+        for st, r in zip(ah["steps"], outs):
+            if r is None:
+                if st["op"] in ("set_edge", "set_node", "load_edges"):
+                    dirty.add(st["slot"])
+                continue
+            stats["calls"] += 1
+            if st["slot"] in dirty:
+                stats["calls_after_an_in_place_edit_of_ids"] += 1
+            key = (st["slot"], st["op"], tuple(st.get("cfg", ())))
+            sig = r["shared"].get("valid", r["shared"].get("outcome"))
+            if key in last and last[key] != sig:
+                stats["verdict_differs_from_previous_call_on_same_arrays"] += 1
+            last[key] = sig
+        for key, what in judge_array_history(ck, ah, outs, mo)[:1]:
+            ck.fail(key, what, {"array_history": ah}, [o for o in outs if o is not None], None)
+    ck.extra["array_object_histories"] = {"corpus+exhaustive": n_fixed, "random": len(hs) - n_fixed, **stats}
+
+
 # ----------------------------------------------------------------- the check
 def to_req(c):
     return {"nodes": [str(x) for x in c["nodes"]], "labels": [str(x) for x in c["labels"]],
@@ -1178,8 +1611,11 @@ def run(ck: common.Check):
                "{tracklet, lineage, both}, the tracklet-id array edited in place between calls")
     corpus_all = list(corpus())
     grid_corpus = [c for c in corpus_all if "lineage_labels" in c]     # regression inputs of the all-configs grid
+    corpus_hist = [c["array_history"] for c in corpus_all if "array_history" in c]     # histories of calls on re-used array objects
+    corpus_all = [c for c in corpus_all if "array_history" not in c]
     cases = [c for c in corpus_all if "lineage_labels" not in c and "steps" not in c]
     n_corpus = len(corpus_all)
+    ck.extra["corpus_array_histories"] = len(corpus_hist)
     for n in range(0, 5):
         cases.extend(exhaustive(n))
     ck.extra["exhaustive_labelled_dags_upto_nodes"] = 4
@@ -1233,6 +1669,7 @@ def run(ck: common.Check):
     ck.extra["validate_data_outcome_and_args_compared_verbatim"] = 0 if m_dat is None else len(m_dat)
     run_dtyped(ck, drv, cases)
     run_histories(ck, drv, cases)
+    run_array_histories(ck, drv, cases, corpus_hist)
 
     # the same labellings through validate_data (dispatch) and through a store + read_to_memory
     sample = [c for i, c in enumerate(cases) if c.get("missing") is None and in_domain(c) and c["nodes"] and i % 17 == 0]
@@ -1316,6 +1753,18 @@ def replay(rp):
         print(json.dumps({"case": v, "impl": r, "violation": bad}))
         print("REPLAY: property holds on this input" if bad is None else "REPLAY: property FAILS on this input")
         return 0 if bad is None else 1
+    if "array_history" in c:
+        ah = c["array_history"]
+        outs = impl_array_history(ah)
+
+        class R1:
+            def corr_broken(self, *a, **k):
+                pass
+        bad = judge_array_history(R1(), ah, outs, None)
+        print(json.dumps({"array_history": ah, "contents_at_each_call": [x for x in ah_states(ah) if x is not None],
+                          "impl": [o for o in outs if o is not None], "failures": bad}))
+        print("REPLAY: property holds on this input" if not bad else "REPLAY: property FAILS on this input")
+        return 0 if not bad else 1
     if "history" in c:
         h = c["history"]
         outs = impl_history(h)
